@@ -308,7 +308,8 @@ def build_graph(ctx, source_kwargs, late=None):
     from streamz import Stream
     sc = ctx.sc
     N = ctx.built if late is not None else {}
-    ctx.built = N
+    if any('attach_at' in n for n in sc['graph']):
+        ctx.built = N          # (kept only when needed: a strong reference to every node defeats C15's gc checks)
     for n in sc['graph']:
         nid, op = n['id'], n['op']
         if (late is None) == ('attach_at' in n) or (late is not None and nid != late):
